@@ -14,16 +14,16 @@ import (
 // tableEntry is one function literal registered in a dispatch table of the repository: an operator implementation
 // for a pair of operand types, a static function, a method of a value type, or a derived operator closure.
 type tableEntry struct {
-	kind     string // binop | unop | static | method | op
-	table    string // short name of the top-level function that registers it (Equal, New, createListMethods, ...)
-	name     string // "(Int,Float)" | "abs" | "map" | "!="
-	fn       *ssa.Function
-	t1, t2   types.Type // operand types (binop / unop)
-	args     int        // declared number of arguments (static, method); -1 = variable
-	argsMin, argsMax int // VarArgs(min,max): bounds on the number of arguments (argsMax 0: none)
-	recvType types.Type // method receiver type
-	site     *ssa.Function
-	pos      token.Pos
+	kind             string // binop | unop | static | method | op
+	table            string // short name of the top-level function that registers it (Equal, New, createListMethods, ...)
+	name             string // "(Int,Float)" | "abs" | "map" | "!="
+	fn               *ssa.Function
+	t1, t2           types.Type // operand types (binop / unop)
+	args             int        // declared number of arguments (static, method); -1 = variable
+	argsMin, argsMax int        // VarArgs(min,max): bounds on the number of arguments (argsMax 0: none)
+	recvType         types.Type // method receiver type
+	site             *ssa.Function
+	pos              token.Pos
 }
 
 func (t *tableEntry) unitName() string {
